@@ -68,10 +68,12 @@ def same_value(a, b):
     return False
 
 
-def read(node):
+def read(node, names=None):
   """{fact name: ('ok', value) | ('raise', exception class name)}."""
   out = {}
   for name, fn in FACTS.items():
+    if names is not None and name not in names:
+      continue
     try:
       out[name] = ('ok', fn(node))
     except Exception as e:  # pylint: disable=broad-except
@@ -87,18 +89,38 @@ def facts_equal(a, b):
   return same_value(a[1], b[1])
 
 
-def touch(forest, counters=None):
+def touch(forest, counters=None, rng=None):
   """Calls every getter on every node (populates the memos).
+
+  With `rng` (sparse mode) only a random subset of the nodes is asked, and each
+  of them only a random subset of the getters, so that the memos the library
+  keeps are populated in part only (the state a real program is in).
 
   Returns {(ridx, keys): facts} for change detection by the caller."""
   out = {}
+  all_names = list(FACTS)
   for ridx, root in enumerate(forest):
     if not isinstance(root, pg.Symbolic):
       continue
     for n, keys in TM.nodes_of(root):
       if isinstance(n, pg.Ref):
         continue
-      out[(ridx, tuple(keys))] = read(n)
+      names = None
+      if rng is not None:
+        mode = getattr(rng, 'sparse_mode', 'half')
+        if mode == 'half':
+          if rng.random() < 0.5:
+            continue
+          names = set(rng.sample(all_names, rng.randint(1, max(1, len(all_names) // 2))))
+        else:
+          # 'one-fact': one and the same getter, asked of the roots only or of
+          # a few nodes, and nothing else.
+          if mode == 'one-fact@root' and keys:
+            continue
+          if mode == 'one-fact@some' and rng.random() < 0.7:
+            continue
+          names = {rng.sparse_fact}
+      out[(ridx, tuple(keys))] = read(n, names)
       if counters is not None:
         counters['derived_getter_rounds'] += 1
   return out
@@ -111,7 +133,8 @@ def root_facts_changed(before, after):
   for k in roots:
     if k not in before or k not in after:
       return True
-    if any(not facts_equal(before[k][name], after[k][name]) for name in CORE):
+    if any(name in before[k] and name in after[k]
+           and not facts_equal(before[k][name], after[k][name]) for name in CORE):
       return True
   return False
 
@@ -215,8 +238,10 @@ def check(forest, counters, touched=None):
         counters['derived_twin_missing'] += 1
         continue
       counters['derived_nodes_compared'] += 1
-      fresh = read(twin)
+      fresh = read(twin, set(mine))
       for name in FACTS:
+        if name not in mine:
+          continue
         counters['derived_fact_comparisons'] += 1
         if facts_equal(mine[name], fresh[name]):
           continue
